@@ -101,6 +101,7 @@ def scan_enums(root):
                     else: item += c
                 add_enum(m.group(1), vs)
 
+STD_TRAITS = set("Clone Copy PartialEq Eq PartialOrd Ord Hash Debug Display ToTokens IntoIterator Iterator DoubleEndedIterator ExactSizeIterator Default From Into TryFrom TryInto AsRef AsMut Borrow BorrowMut Deref DerefMut ToString ToOwned Fn FnMut FnOnce Extend FromIterator Index IndexMut Add Sub Not Neg Drop Spanned Write Try FromResidual".split())
 class Panic(Exception): pass
 class Infeasible(Exception): pass
 class Unmodelled(Exception): pass
@@ -567,7 +568,7 @@ class Engine:
             m = re.match(r"^<(.+) as (.+)>::(\w+)$", n)
             if m:
                 ty, tr, meth = m.groups()
-                if ty.startswith("&"): ty = None     # blanket impl for references: handled by models
+                if ty.startswith("&") and re.sub(r"<.*", "", tr).split("::")[-1] in STD_TRAITS: ty = None     # blanket impls of std traits for references: handled by models
             elif "::" in n: ty, meth = n.rsplit("::", 1); tr = None
             else: ty = None
             if ty is not None:
@@ -579,7 +580,7 @@ class Engine:
                     if trl is None:
                         if re.match(r"^impl(<.*?>)? " + re.escape(tyl) + r"\b", hdr) and " for " not in hdr: res = f; break
                     else:
-                        if re.search(r"\b" + re.escape(trl) + r"(<.*>)? for (&|crate::|super::)*" + re.escape(tyl) + r"\b", hdr): res = f; break
+                        if re.search(r"\b" + re.escape(trl) + r"(<.*>)? for (&|\w+::)*" + re.escape(tyl) + r"\b", hdr): res = f; break
                         # derive: header is the trait name only, e.g. `Clone`; Self type from first arg
                         if hdr == trl:
                             sig = f.ltypes[f.args[0]] if f.args else f.ret_ty
